@@ -123,6 +123,9 @@ def _sources(body, cap_src, extra=None):
     return src, computed, place_src
 
 
+CTOR = {}   # id(prog) -> getter -> (MIR body of the constructing closure, [what each captured variable is: parameter name(s) / <cache>])
+
+
 def _closure_arg(body, call_block, argi):
     """(def path, [capture operands]) of the closure aggregate passed as argument argi of the call"""
     t = body.blocks[call_block]["term"]
@@ -198,9 +201,12 @@ def r1_cache_key(ctx, prog):
             r.viol("R1:%s#ctor" % g, "or_insert_with is not given a closure literal", file=b0.file, line=b0.line)
             continue
         used = set()
+        labels = []
         for op in c1[1]:
             s, _c = place0(op_place(op))
             used |= s
+            labels.append("+".join(sorted(s)) or "?")
+        CTOR.setdefault(id(prog), {})[g] = (prog.bodies.get(c1[0]), labels)
         used.discard("<cache>")
         missing = used - key_all
         unkeyed = set(params) - key_all
@@ -213,12 +219,19 @@ def r1_cache_key(ctx, prog):
         # the value handed back is what the entry holds
         ret_src, _c = place0({"l": 0, "p": []})
         t = b0.blocks[oi[0]]["term"]
+        # _0 is a copy (through any number of locals / dereferences) of what or_insert_with returned
         ok_ret = False
-        for (bi, j, s) in b0.defs().get(0, []):
-            if j != "term":
+        reach, todo = {0}, [0]
+        while todo:
+            l = todo.pop()
+            for (bi, j, s) in b0.defs().get(l, []):
+                if j == "term" or s["rv"]["k"] not in ("Use", "CopyForDeref", "Ref", "Cast"):
+                    continue
                 p = s["rv"].get("place") or (op_place(s["rv"]["ops"][0]) if s["rv"].get("ops") else None)
-                if p and p["l"] == t["dest"]["l"]:
-                    ok_ret = True
+                if p and p["l"] not in reach:
+                    reach.add(p["l"])
+                    todo.append(p["l"])
+        ok_ret = t["dest"]["l"] in reach
         if not ok_ret:
             r.viol("R1:%s#returns-entry" % g, "the getter does not return the cached entry", file=b0.file, line=b0.line)
             continue
@@ -367,7 +380,7 @@ def _book_lists(md):
     return out
 
 
-def r3_tables(ctx):
+def r3_tables(ctx, prog):
     r = Rule("C18.R3", "option tables agree from the book to ICU4X", "`select the documented formatter and options - defaults for "
              "omitted or unrecognised arguments, insensitive to surrounding whitespace`", floor=40)
     ast = ctx.ast
@@ -494,56 +507,72 @@ def r3_tables(ctx):
     _r3_helper(r, ctx)
     _r3_names(r, ctx)
     _r3_codegen(r, ctx)
-    _r3_runtime(r, ctx)
+    _r3_runtime(r, ctx, prog)
     return r
 
 
 def _r3_helper(r, ctx):
     """from_args_helper: default when absent/unrecognised; whitespace trimmed by the caller"""
-    prog = ctx.mir("main")
-    b = prog.body("leptos_i18n_parser::utils::formatter::from_args_helper")
-    if b is None:
+    import itertools
+    from rules import absint
+    from rules.absint import AEval, A, C as K, L, T
+    ast = ctx.ast
+    fn = ast.fn(PF, "from_args_helper")
+    if fn is None:
         r.missing("from_args_helper")
         return
-    dflt = [i for i in M.call_blocks(b, r"Default>::default$|Default::default$") if b.blocks[i]["term"]["dest"]["l"] == 0]
-    ne = M.call_blocks(b, r"PartialEq<.*>>::ne$|PartialEq::ne$|PartialEq<&'a str>>::ne$")
-    fcall = M.call_blocks(b, r"Fn<.*>>::call$|Fn::call$|FnOnce::call_once$|FnMut::call_mut$")
-    nxt = M.call_blocks(b, r"Iterator>::next$|Iterator::next$")
-    ok = len(dflt) == 2 and len(ne) == 1 and len(fcall) == 1 and len(nxt) == 1
-    if ok:
-        sw = M.result_switch(b, ne[0])
-        ok = sw is not None and not b.paths_avoiding(sw[1], [fcall[0]], nxt) and b.paths_avoiding(sw[2], [fcall[0]], nxt)
-        # after f: Some -> return it, None -> keep scanning
-        ds = M.discr_switches(b, lambda p: p["l"] == b.blocks[fcall[0]]["term"]["dest"]["l"])
-        ok = ok and len(ds) == 1
-        rets = b.return_blocks()
-        # one default is on the `args == None` path (before the loop), the other after the loop is exhausted
-        ok = ok and any(not b.paths_avoiding(0, [d], []) is False and not b.dominates(nxt[0], d) for d in dflt) and any(b.dominates(nxt[0], d) for d in dflt)
-    if ok:
-        r.inst("from_args_helper", "no args -> Default; other argument names skipped; unrecognised value -> keeps scanning; exhausted -> Default")
+    # decision table over the only observations the helper makes: is the argument named `name`, does f recognise the value
+    S = lambda x: ("str", x)
+    classes = {"hit1": (S("NAME"), S("good1")), "hit2": (S("NAME"), S("good2")), "unrecognised": (S("NAME"), S("bad")), "other-name": (S("zzz"), S("good3"))}
+
+    def F(v, rest):
+        return K("Some", A("value-of:" + v[1])) if v[1].startswith("good") else K("None")
+
+    def run(argsv):
+        return AEval(funcs={}, builtins={"F": F}).run_fn(fn, [argsv, S("NAME"), ("builtin-fn", "F")])
+    bad = []
+    n = 0
+    cases = [("no arguments", K("None"), absint.DEFAULT)]
+    for k in range(0, 4):
+        for combo in itertools.product(sorted(classes), repeat=k):
+            first = next((c for c in combo if c.startswith("hit")), None)
+            want = A("value-of:" + classes[first][1][1]) if first else absint.DEFAULT
+            cases.append(("(" + ", ".join(combo) + ")", K("Some", L(*[T(*classes[c]) for c in combo])), want))
+    for label, argsv, want in cases:
+        got = run(argsv)
+        n += 1
+        if got != want:
+            bad.append("%s -> %s, expected %s" % (label, got if isinstance(got, str) else absint.fmt(got), absint.fmt(want)))
+    if not bad:
+        r.inst("from_args_helper", "%d argument-list shapes (up to 3 arguments x {recognised, unrecognised, other name}): no args -> Default; other names skipped; unrecognised value -> keeps scanning; first recognised wins; exhausted -> Default" % n)
     else:
-        r.viol("R3:from_args_helper", "the default / skip / first-recognised-value structure changed (defaults=%s ne=%s f=%s next=%s)" % (dflt, ne, fcall, nxt), file=b.file, line=b.line)
-    fn = ctx.ast.fn(PV, "parse_formatter_args")
+        r.viol("R3:from_args_helper", "the default / skip / first-recognised-value behaviour changed: %s" % "; ".join(bad[:3]), file=fn.file, line=fn.line)
+    fn = ast.fn(PV, "parse_formatter_args")
     if fn is None:
         r.missing("parse_formatter_args")
         return
+    # the function only observes the positions of `(`, `)`, `;`, `:` and surrounding whitespace: one padded representative per arrangement
+    table = [
+        ("\t nm \n", ("nm", None)),
+        (" nm ( a : x ;\tb\t:\ty\n) tail", ("nm", [("a", "x"), ("b", "y")])),
+        (" nm ( a : x ", ("nm ( a : x", None)),
+        (" nm ) a ( ", ("nm ) a (", None)),
+        (" nm ( a ; b : y ; ) ", ("nm", [("b", "y")])),
+        (" nm ( a : x : z ) ", ("nm", [("a", "x : z")])),
+        (" nm ( a ( b : c ) d ) e", ("nm", [("a ( b", "c ) d")])),
+        (" nm ( ) ", ("nm", [])),
+        ("nm(a:x)", ("nm", [("a", "x")])),
+    ]
     bad = []
-    n = 0
-    for t in find_all(fn.body, "Tuple"):
-        for e in t.get("elems", []):
-            if e["k"] == "MethodCall" and e["method"] == "trim" and not e["args"]:
-                n += 1
-            elif e["k"] == "Path" and e["path"] == "None":
-                pass
-            elif e["k"] == "Call" and flat(show(e["func"])) == "Some":
-                pass
-            else:
-                bad.append(show(e))
-    t = flatp(show(fn.body))
-    if not bad and n == 5 and has(t, "args.split';'.filter_map|s|s.split_once':'.map|a,b|a.trim,b.trim") and has(t, "s.split_once'('") and has(t, "rest.rsplit_once')'"):
-        r.inst("parse_formatter_args", "name, argument names and values all `.trim()`ed; `;` separates arguments, `:` name from value")
+    for src, (wn, wa) in table:
+        want = T(S(wn), K("None") if wa is None else K("Some", L(*[T(S(x), S(y)) for x, y in wa])))
+        got = AEval(funcs={}).run_fn(fn, [S(src)])
+        if got != want:
+            bad.append("%r -> %s, expected %s" % (src, got if isinstance(got, str) else absint.fmt(got), absint.fmt(want)))
+    if not bad:
+        r.inst("parse_formatter_args", "%d separator arrangements: name, argument names and values are all trimmed; first `(` .. last `)`; `;` separates arguments, first `:` splits name from value; pieces without `:` are skipped" % len(table))
     else:
-        r.viol("R3:parse_formatter_args#trim", "an untrimmed component is returned (%s) or the separators changed" % bad, file=fn.file, line=fn.line)
+        r.viol("R3:parse_formatter_args#trim", "an untrimmed component is returned or the separators changed: %s" % "; ".join(bad[:3]), file=fn.file, line=fn.line)
     fn = ctx.ast.fn(PV, "parse_formatter")
     t = flatp(show(fn.body)) if fn else ""
     if has(t, "let(name,args)=Self::parse_formatter_argss;matchFormatter::from_name_and_argsname,args.as_deref{OkSomeformatter=>Okformatter;OkNone=>ErrError::UnknownFormatter") and has(t, "Errformatter=>ErrError::DisabledFormatter"):
@@ -677,7 +706,7 @@ def _r3_codegen(r, ctx):
             r.missing("Formatter::" + name)
 
 
-def _r3_runtime(r, ctx):
+def _r3_runtime(r, ctx, prog):
     ast = ctx.ast
     fn = ast.fn(RT + "currency.rs", "from", impl_self="Width")
     m = find_first(fn.body, "Match") if fn else None
@@ -710,17 +739,37 @@ def _r3_runtime(r, ctx):
     if n == len(want):
         r.inst("BakedDataProvider", "%d constructors: compiled data -> the ICU4X constructor of the same kind; custom provider -> delegated unchanged" % n)
     # option conversions inside the getters
-    conv = {"get_currency_formatter": "try_new_currency_formatter&locale.into,CurrencyFormatterOptions::fromwidth", "get_num_formatter": "try_new_num_formatter&locale.into,FixedDecimalFormatterOptions::fromgrouping_strategy",
-            "get_date_formatter": "try_new_date_formatter&locale.into,length", "get_time_formatter": "try_new_time_formatter&locale.into,length",
-            "get_datetime_formatter": "letoptions=length::Bag::from_date_time_styledate_length,time_length;", "get_list_formatter": "list_type.new_formatter&formatters.provider,locale,length",
-            "get_plural_rules": "try_new_plural_rules&locale.into,plural_rule_type"}
+    import mirsum
+    conv = {"get_currency_formatter": "CurrencyFormatter::try_new(Into::into(locale), From::from(width))",
+            "get_num_formatter": "FixedDecimalFormatter::try_new(Into::into(locale), From::from(grouping_strategy))",
+            "get_date_formatter": "DateFormatter::try_new_with_length(Into::into(locale), length)",
+            "get_time_formatter": "TimeFormatter::try_new_with_length(Into::into(locale), length)",
+            "get_datetime_formatter": "DateTimeFormatter::try_new(Into::into(locale), Into::into(Bag::from_date_time_style(date_length, time_length)))",
+            "get_list_formatter": "ListType::new_formatter(list_type, <cache>, locale, length)",
+            "get_plural_rules": "PluralRules::try_new(Into::into(locale), plural_rule_type)"}
+
+    def find_ctor(t):
+        if isinstance(t, tuple):
+            if t and t[0] == "call" and re.search(r"::try_new\w*$|::new_formatter$", t[1]):
+                return t
+            for x in t:
+                f = find_ctor(x)
+                if f is not None:
+                    return f
+        return None
     for g, w in conv.items():
-        fn = ast.fn(RT + "mod.rs", g)
-        t = flatp(show(fn.body)) if fn else ""
-        if has(t, w) and (g != "get_datetime_formatter" or has(t, "try_new_datetime_formatter&locale.into,options.into")):
+        info = CTOR.get(id(prog), {}).get(g)
+        if info is None or info[0] is None:
+            r.viol("R3:%s#ctor" % g, "the constructing closure of the getter was not found (see R1)", file=RT + "mod.rs")
+            continue
+        cb, labels = info
+        t = mirsum.summary(prog, cb, args=[("tuple", tuple(("cap", l) for l in labels))])
+        c = find_ctor(t) if t is not None else None
+        got = mirsum.fmt(c) if c is not None else (mirsum.fmt(t) if t is not None else "a branching computation")
+        if got == w:
             r.inst(g + "#ctor", w)
         else:
-            r.viol("R3:%s#ctor" % g, "the constructor is not called with the getter's own locale and options", file=RT + "mod.rs")
+            r.viol("R3:%s#ctor" % g, "the constructor is not called with the getter's own locale and options: `%s`, expected `%s`" % (got, w), file=cb.file, line=cb.line)
     # value conversions
     fn32 = ast.fn(RT + "nums.rs", "to_fixed_decimal", impl_self="f32")
     fn64 = ast.fn(RT + "nums.rs", "to_fixed_decimal", impl_self="f64")
@@ -855,7 +904,7 @@ def r5_supported(ctx, prog):
 
 def run(ctx):
     prog = ctx.mir("main")
-    rules = [r1_cache_key(ctx, prog), r2_lock(ctx, prog), r3_tables(ctx), r4_entry_points(ctx, prog), r5_supported(ctx, prog)]
+    rules = [r1_cache_key(ctx, prog), r2_lock(ctx, prog), r3_tables(ctx, prog), r4_entry_points(ctx, prog), r5_supported(ctx, prog)]
     if ctx.tier == "thorough":
         # the same MIR rules on the client-less build (no ssr / dynamic_load): other cfg branches of the same functions
         for cfg in ("plain", "hydrate"):
